@@ -55,5 +55,7 @@ for d in sorted(glob.glob(os.path.join(V, 'seeded', 'C*'))):
         'caught_by': fired,
         'first_report': (res.get(prop, {}).get('first') or '')[:300] if prop in fired else '',
     }
+    if os.path.exists(os.path.join(d, 'REBASED.txt')):
+        meta['note'] = open(os.path.join(d, 'REBASED.txt')).read().strip()
     json.dump(meta, open(os.path.join(d, 'meta.json'), 'w'), indent=1)
 print('meta written for', len(glob.glob(os.path.join(V, 'seeded', 'C*'))))
